@@ -178,7 +178,13 @@ class SctpWorld:
         self._preset_sseq()
 
     # ------------------------------------------------------------------ set-up
+    def activate(self):
+        """Make this world the current one (needed when two worlds are alive at once)."""
+        S.time = self.clock
+        self.loop.install()
+
     def close(self):
+        self.activate()
         S.time = _ORIG["time"]
         S.random32 = _ORIG["random32"]
         S.os = _ORIG["os"]
